@@ -469,7 +469,13 @@ impl<'a> Renderer<'a> {
                 self.style.expand_empty && scoped
             };
             if expand {
-                self.out.push_str(&format!("></{qname}>"));
+                self.out.push('>');
+                // a leaf whose only content is a comment is still empty (not inside containers:
+                // the content of <data> is handed to the caller verbatim, comments included)
+                if self.style.comments >= 1 && scoped && !x.container {
+                    self.comment();
+                }
+                self.out.push_str(&format!("</{qname}>"));
             } else {
                 self.out.push_str("/>");
             }
